@@ -634,7 +634,23 @@ def possible_strings(prog, f, node):
         return None
     out = set()
     found = False
-    for n in walk_code(f.node):
+    # the binding that governs this use: the innermost enclosing loop / comprehension that binds the name
+    def binds(n_):
+        tgt_ = n_.target if isinstance(n_, (ast.For, ast.comprehension)) else None
+        return tgt_ is not None and any(isinstance(x, ast.Name) and x.id == node.id for x in ast.walk(tgt_))
+    anc = getattr(node, "parent", None)
+    enclosing = None
+    while anc is not None and anc is not f.node:
+        if isinstance(anc, ast.For) and binds(anc) and not any(node is x for x in ast.walk(anc.iter)):
+            enclosing = anc
+            break
+        if isinstance(anc, (ast.ListComp, ast.GeneratorExp, ast.SetComp, ast.DictComp)):
+            hit = [g_ for g_ in anc.generators if binds(g_)]
+            if hit:
+                enclosing = hit[-1]
+                break
+        anc = getattr(anc, "parent", None)
+    for n in ([enclosing] if enclosing is not None else walk_code(f.node)):
         tgt = it = None
         if isinstance(n, ast.For):
             tgt, it = n.target, n.iter
@@ -668,6 +684,8 @@ def possible_strings(prog, f, node):
             if not isinstance(x, str):
                 return None
             out.add(x)
+    if enclosing is not None:
+        return out if found else None
     # any other binding of the name makes the set unknown
     for n in walk_code(f.node):
         if isinstance(n, ast.Name) and n.id == node.id and isinstance(n.ctx, ast.Store):
